@@ -40,6 +40,19 @@ CLAIMED = {
              "finders are exercised, their correctness is C13.",
         technique="Lean 4 proof (index arithmetic) + differential correspondence with stubbed method",
         design="§3 C05"),
+    "C20": dict(
+        text="Lean 4 theorems over a decision model of request validation/dispatch (entry point x method x direction "
+             "class x shape x option-validity flags): an inverse operator is only returned for an inverse request and "
+             "a forward operator only for a forward request by a forward-capable method; dispatch raises iff the "
+             "request is unsupported (declarative spec). Tied to the code by executing every request class on "
+             "abel.Transform and the transform functions and classifying the outcome (raise/forward/inverse) by an "
+             "independent amplitude test; finite table enumerated completely + seeded interactions; every request "
+             "is issued twice to expose stale state after a failure.",
+        note="Trusted: Lean kernel + standard axioms; the abstraction of concrete requests into classes (harness "
+             "model_line); forward/inverse classification by the Gaussian amplitude ratio; direct's C backend not "
+             "built here (python backend only).",
+        technique="Lean 4 proof (case analysis, grind) + exhaustive differential correspondence over the request table",
+        design="§3 C20"),
 }
 
 NOT_YET = "check not built yet in this session (planned, see DESIGN.md §3); not claimed until its theorems and correspondence run"
